@@ -195,7 +195,8 @@ def run(ctx):
 	crosscheck_tables(ctx)
 	r = ctx.rng("c10")
 	for i in range(ctx.scale(1200, 40000)):
-		run_config(ctx, ctx.case_rng("config", i), i, gen)
+		with common.case_watchdog(ctx, "config", {"case": i}, first = 60, second = 60):
+			run_config(ctx, ctx.case_rng("config", i), i, gen)
 		ctx.count("configurations")
 		if ctx.too_many() or ctx.time_left() < 0:
 			break
